@@ -1,6 +1,7 @@
 """C09 — CRC-16: correspondence (C++ engine vs extracted ImplCRC) and property oracle
 (C++ engine vs extracted SpecCRC; residue zero; exhaustive single/double/burst classes)."""
 from vlib import COQ, VERIF
+from m17ref import crc16 as R_crc16
 
 PROPERTY = "C09"
 CONSTS = ["crc"]
@@ -63,10 +64,34 @@ def gen_cases(ctx):
             e = bytearray(r.bytes(30))
         ctx.count(["single", "double", "burst", "random"][kind])
         cases.append(f"err {hexs(m)} {hexs(bytes(e))}")
+    # operation sequences on ONE reused engine object (reset / feed / get / get_bytes in any order)
+    for _ in range(600 if thorough else 150):
+        ops = []
+        for _ in range(r.range(2, 40)):
+            c = r.below(10)
+            ops.append("R" if c == 0 else "G" if c <= 2 else "B" if c == 3 else "%02x" % r.below(256))
+        if r.chance(3, 4):
+            ops.insert(0, "R")
+        ctx.count("engine-reuse-sequence")
+        cases.append("seq " + " ".join(ops))
+    # crc(byte, reg) from EVERY 16-bit register value, for a few byte values
+    for b in [0x00, 0xFF, 0x80, 0x01] + [r.below(256) for _ in range(12 if thorough else 2)]:
+        ctx.count("register-sweep")
+        cases.append("sweep %02x" % b)
     return cases
 
 
+def canon_impl(line):
+    """the C++ harness prints the whole 65536-entry dump; reduce it to the digest form the model driver prints"""
+    if line.startswith("SWEEP "):
+        import hashlib
+        d = line[6:]
+        return hashlib.md5(d.encode()).hexdigest() + " " + d[:64]
+    return line
+
+
 def run(ctx):
+    r0 = ctx.rng.fork("c09-all3")
     exe = ctx.build_cpp("c09_harness", "c09.cpp")
     cases = gen_cases(ctx)
     text = "\n".join(cases) + "\n"
@@ -76,6 +101,7 @@ def run(ctx):
         rc, impl_out = ctx.run_exe(exe, input_text=text)
         if rc != 0:
             ctx.tie_broken("c09-harness-run", f"harness exited {rc}: {impl_out[-300:]}")
+        impl_out = "\n".join(canon_impl(l) for l in impl_out.split("\n"))
     if getattr(ctx, "model", None):
         rc, model_out = ctx.run_exe(ctx.model, ["impl"], input_text=text)
         rc2, spec_out = ctx.run_exe(ctx.model, ["spec"], input_text=text)
@@ -103,6 +129,30 @@ def run(ctx):
                     ctx.violation("crc-residue-nonzero", "message followed by its CRC bytes does not check to zero",
                                   {"input": c, "implementation": a[i]})
                     break
+            elif c.startswith("seq"):
+                # after reset() the engine must compute the CRC of exactly the bytes fed since that reset
+                ops = c.split()[1:]
+                outs = a[i].split()[1:]
+                fed, seen_reset, k = bytearray(), False, 0
+                for op in ops:
+                    if op == "R":
+                        fed, seen_reset = bytearray(), True
+                    elif op in ("G", "B"):
+                        got = outs[k] if k < len(outs) else "?"
+                        k += 1
+                        if seen_reset:
+                            want = R_crc16(bytes(fed))
+                            exp = ("g=%04x" % want) if op == "G" else ("b=%04x" % want)
+                            if got != exp:
+                                ctx.violation("crc-engine-reuse", "after reset() a reused engine does not return the CRC of the bytes fed since the reset",
+                                              {"input": c, "implementation": a[i], "at_output": k - 1, "expected": exp, "bytes_since_reset": bytes(fed).hex()})
+                                break
+                    else:
+                        fed.append(int(op, 16))
+                if any(v[0] == "crc-engine-reuse" for v in ctx.violations):
+                    break
+            elif c.startswith("sweep"):
+                pass   # correspondence only (every register value); a difference is searched below
             elif c.startswith("err"):
                 e = c.split()[2]
                 f = dict(x.split("=") for x in a[i].split())
@@ -116,6 +166,23 @@ def run(ctx):
                 if kind_nonzero and (bits <= 2 or span_ok) and f["a"] == f["b"]:
                     ctx.violation("crc-error-undetected", "a single/double/burst error leaves the CRC unchanged",
                                   {"input": c, "implementation": a[i]})
+                    break
+        # every register value at a byte boundary: all 65536 two-byte prefixes followed by one more byte, against the specification
+        bytes3 = [0x00, r0.below(256)] if True else []
+        diff_sweeps = [c.split()[1] for i, c in enumerate(cases) if c.startswith("sweep") and model_out and i < len(a)
+                       and i < len(model_out.strip("\n").split("\n")) and a[i] != model_out.strip("\n").split("\n")[i]]
+        bytes3 += [int(x, 16) for x in diff_sweeps]
+        rc3, out3 = ctx.run_exe(exe, input_text="".join("all3 %02x\n" % b for b in bytes3), timeout=600)
+        for b, l in zip(bytes3, out3.strip().split("\n")):
+            if not l.startswith("ALL3 "):
+                continue
+            d = l[5:]
+            ctx.evaluations += 65536
+            for m in range(65536):
+                msg = bytes([m >> 8, m & 255, b])
+                if int(d[4 * m:4 * m + 4], 16) != R_crc16(msg):
+                    ctx.violation("crc-differs-from-m17-spec", "CRC16 result differs from the M17 CRC of the specification",
+                                  {"input": "crc " + msg.hex(), "implementation": d[4 * m:4 * m + 4], "specification": "%04x" % R_crc16(msg)})
                     break
         # exhaustive classes on the C++ alone
         r = ctx.rng.fork("c09-classes")
